@@ -14,7 +14,7 @@ from checks import decoders as D
 from spec import cosem_ref as CR
 
 PROP = "C12"
-ENGINE_EXC = (PathAbort, EngineLimit, EngineFault)
+ENGINE_EXC = (PathAbort, EngineLimit, EngineFault) + core.HARNESS_SIDE
 NAMES = ["Aidon_frame", "Kaifa_frame", "Kamstrup_frame", "P1", "Aidon_notification_body", "Kaifa_notification_body", "Kamstrup_notification_body"]
 
 
